@@ -46,11 +46,12 @@ def jtype(v):
     if isinstance(v, tuple) and v[0] == 'expref': return 'expref'
     raise ValueError(v)
 def accepts(tys, v):
-    """does value v belong to the declared parameter type (a union of names)?  `any` accepts every value including expression
-    references (as the specification's reference implementation does)."""
+    """does value v belong to the declared parameter type (a union of names)?  `any` accepts every JSON value; whether it also accepts an
+    expression reference is left open (returns None = either outcome is accepted): the specification's `any` ranges over JSON values, its
+    reference implementation and this crate admit references in some `any` positions (type, to_array, not_null) and not in others (to_string)."""
     t = jtype(v)
     for ty in tys:
-        if ty == 'any': return True
+        if ty == 'any': return None if t == 'expref' else True
         if ty == t: return True
         if ty == 'array-number' and t == 'array' and all(jtype(x) == 'number' for x in v): return True
         if ty == 'array-string' and t == 'array' and all(jtype(x) == 'string' for x in v): return True
@@ -61,11 +62,14 @@ def check_call(name, args):
     params, var, _ = SIG[name]
     if len(args) < len(params): return 'invalid-arity'
     if var is None and len(args) > len(params): return 'invalid-arity'
+    either = False
     for i, a in enumerate(args):
         tys = params[i] if i < len(params) else var
-        if not accepts(tys, a): return 'invalid-type'
-    return None
-ARITY = {'invalid-arity': ('too-many-arguments', 'not-enough-arguments'), 'invalid-type': ('invalid-type', 'invalid-return-type'), 'unknown-function': ('unknown-function',)}
+        r = accepts(tys, a)
+        if r is None: either = True
+        elif not r: return 'invalid-type'
+    return 'either' if either else None
+ARITY = {'either': ('invalid-type',), 'invalid-arity': ('too-many-arguments', 'not-enough-arguments'), 'invalid-type': ('invalid-type', 'invalid-return-type'), 'unknown-function': ('unknown-function',)}
 
 # ------------------------------------------------------------------ tiny evaluator for the expression references used by the harness
 def _eval_expref_text(text, v):
